@@ -30,7 +30,7 @@ class CurveFit:
         # (e.g. close on itself) and must still end at its last point.
         deduped = []
         for x in data:
-            if len(deduped) == 0 or hash(x) != hash(deduped[-1]):
+            if len(deduped) == 0 or x.x != deduped[-1].x or x.y != deduped[-1].y:
                 deduped.append(x)
         data = deduped
         if len(data) < 2:
